@@ -97,6 +97,7 @@ struct WRec { std::atomic<uint64_t> s{0}, e{0}; std::atomic<int> epoch{0}; };
 static const int kMaxW = 1024;
 static WRec g_w[kMaxW];
 static std::atomic<int> g_epoch{0};               // case number: threads of an earlier case do not count
+static thread_local int tl_made = 0;              // threads created BY this thread (execute() on it spawned a worker)
 static thread_local int tl_widx = 0;              // 0 = not a tracked worker; else index into g_w (== thread number)
 struct Tramp { void *(*fn)(void *); void *arg; int idx; int epoch; };
 static void *tramp(void *p) {
@@ -110,7 +111,8 @@ static void *tramp(void *p) {
 typedef int (*pcreate_t)(pthread_t *, const pthread_attr_t *, void *(*)(void *), void *);
 extern "C" int pthread_create(pthread_t *th, const pthread_attr_t *attr, void *(*fn)(void *), void *arg) {
     static pcreate_t real = (pcreate_t)dlsym(RTLD_NEXT, "pthread_create");
-    if (!g_track.load() || !pthread_equal(pthread_self(), g_main_thr)) return real(th, attr, fn, arg);
+    if (!g_track.load()) return real(th, attr, fn, arg);   // workers may be created by a nested execute() too
+    ++tl_made;
     int idx = g_created.fetch_add(1) + 1;
     if (idx >= kMaxW) return real(th, attr, fn, arg);
     g_w[idx].s = 0; g_w[idx].e = 0;
@@ -126,10 +128,17 @@ struct TaskRec {
     std::atomic<uint64_t> s{0}, e{0}, cbq{0};
     std::atomic<int> thr{-1}, cbthr{-1};
     std::atomic<int> extra{0};                  // second execution / second callback (never expected)
+    std::atomic<bool> cancelled{false};         // some cancel() answered 0
+    std::atomic<bool> ready{false};             // nested task: prio/cb/dur are published
+    struct Act { char kind; int prio; bool cb; unsigned dur; size_t k; };
+    std::vector<Act> bscript, cscript;          // re-entrant API use from the task body / from the completion callback
 };
 static const size_t kMaxTasks = 4096;
+static const size_t kNestBase = 2048;            // tasks submitted by bodies / callbacks are numbered from here
+static std::atomic<size_t> g_nn{0};
 static std::unique_ptr<TaskRec[]> g_tasks;
 static size_t g_ntasks = 0;
+size_t g_ntasks_fwd() { return g_ntasks; }
 
 static std::mutex g_thr_mu;
 static std::map<std::thread::id, int> g_thr_ids;
@@ -142,6 +151,31 @@ static int thr_index() {                         // loop thread = 0, workers = c
     int n = (int)g_thr_ids.size();
     g_thr_ids[id] = n;
     return n;
+}
+
+// ---------------------------------------------------------------- re-entrant API use (bodies / callbacks call the pool)
+struct NEv { char kind; size_t k; int r; int thr; size_t parent; int prio; bool cb; uint64_t qb, qa; };
+static std::mutex g_nev_mu;
+static std::vector<NEv> g_nev;
+static void nev(const NEv &e) { std::lock_guard<std::mutex> lg(g_nev_mu); g_nev.push_back(e); }
+static tbox::eventx::ThreadPool *g_tp = nullptr;
+static tbox::eventx::WorkThread *g_wt = nullptr;
+static void run_script(size_t self, const std::vector<TaskRec::Act> &sc);
+static void task_body(size_t k) {
+    TaskRec &t = g_tasks[k];
+    if (t.nbody.fetch_add(1) > 0) { t.extra.fetch_add(1); return; }
+    t.thr = thr_index();
+    t.s = seq();
+    if (t.dur_us) usleep(t.dur_us);
+    if (!t.bscript.empty()) run_script(k, t.bscript);
+    t.e = seq();
+}
+static void task_cb(size_t k) {
+    TaskRec &t = g_tasks[k];
+    if (t.ncb.fetch_add(1) > 0) { t.extra.fetch_add(1); return; }
+    t.cbthr = thr_index();
+    t.cbq = seq();
+    if (!t.cscript.empty()) run_script(k, t.cscript);
 }
 
 // ---------------------------------------------------------------- watchdog
@@ -164,11 +198,52 @@ static void watchdog() {
 
 // ---------------------------------------------------------------- the case state
 static event::Loop *g_loop = nullptr;
-static ThreadPool *g_tp = nullptr;
-static WorkThread *g_wt = nullptr;
 static bool g_inited = false, g_cleaned = false;
 
+static void run_script(size_t self, const std::vector<TaskRec::Act> &sc) {
+    int thr = thr_index();
+    long last = -1;                                  // most recent nested child of this script
+    for (const auto &a : sc) {
+        if (a.kind == 'x') {
+            size_t j = g_nn.fetch_add(1);
+            size_t k = kNestBase + j;
+            if (k >= kMaxTasks) return;
+            TaskRec &c = g_tasks[k];
+            c.prio = a.prio; c.cb = a.cb; c.dur_us = a.dur;
+            c.ready.store(true, std::memory_order_release);
+            uint64_t qb = seq();
+            cabinet::Token tok;
+            if (g_tp) tok = a.cb ? g_tp->execute([k] { task_body(k); }, [k] { task_cb(k); }, a.prio) : g_tp->execute([k] { task_body(k); }, a.prio);
+            else if (g_wt) tok = a.cb ? g_wt->execute([k] { task_body(k); }, [k] { task_cb(k); }) : g_wt->execute([k] { task_body(k); });
+            uint64_t qa = seq();
+            if (tok.isNull()) { nev(NEv{'z', k, 0, thr, self, a.prio, a.cb, qb, qa}); }
+            else { c.token = tok; last = (long)k; nev(NEv{'x', k, 0, thr, self, a.prio, a.cb, qb, qa}); }
+        } else {
+            size_t k = (a.kind == 'S' || a.kind == 'C') ? (size_t)last : a.k;
+            if ((a.kind == 'S' || a.kind == 'C') && last < 0) continue;
+            bool is_cancel = (a.kind == 'c' || a.kind == 'C');
+            uint64_t qb = seq();
+            int r;
+            if (is_cancel) r = g_tp ? g_tp->cancel(g_tasks[k].token) : (g_wt ? g_wt->cancel(g_tasks[k].token) : 1);
+            else r = g_tp ? (int)g_tp->getTaskStatus(g_tasks[k].token) : (g_wt ? (int)g_wt->getTaskStatus(g_tasks[k].token) : 2);
+            uint64_t qa = seq();
+            if (is_cancel && r == 0) g_tasks[k].cancelled = true;
+            nev(NEv{is_cancel ? 'c' : 's', k, r, thr, self, 0, false, qb, qa});
+        }
+    }
+}
+template <typename F> static void for_each_task(F f) {
+    size_t nn = g_nn.load();
+    extern size_t g_ntasks_fwd();
+    for (size_t k = 0; k < g_ntasks_fwd(); ++k) f(k);
+    for (size_t j = 0; j < nn && kNestBase + j < kMaxTasks; ++j)
+        if (g_tasks[kNestBase + j].ready.load(std::memory_order_acquire)) f(kNestBase + j);
+}
+// bodies that call the API must not overlap cleanup(): wait until every task with a script has finished or was cancelled
+static void wait_scripts_done();
+
 static void guarded_cleanup() {
+    wait_scripts_done();
     g_deadline_ms = now_ms() + g_watchdog_ms;
     g_in_cleanup = 1;
     if (g_tp) g_tp->cleanup();
@@ -185,8 +260,9 @@ static void reset_case() {
     delete g_wt; g_wt = nullptr;
     g_deadline_ms = 0;
     g_inited = false; g_cleaned = false;
-    g_ntasks = 0;
+    g_ntasks = 0; g_nn = 0;
     g_tasks.reset(new TaskRec[kMaxTasks]);
+    { std::lock_guard<std::mutex> lg(g_nev_mu); g_nev.clear(); }
     g_seq = 0;
     g_track = 0; g_epoch.fetch_add(1); g_created = 0; g_ended = 0;
     {
@@ -197,15 +273,51 @@ static void reset_case() {
 }
 
 // every tracked worker thread that has not ended is blocked in pthread_cond_wait and no accepted task is unfinished
-static std::vector<int> *g_cancelled = nullptr;
+static bool all_done(bool scripted_only) {
+    bool ok = true;
+    for_each_task([&](size_t k) {
+        TaskRec &t = g_tasks[k];
+        if (scripted_only && t.bscript.empty()) return;
+        if (!t.cancelled.load() && t.e.load() == 0) ok = false;
+    });
+    return ok;
+}
+static void wait_scripts_done() {
+    if (g_cleaned || !g_inited) return;
+    int64_t dl = now_ms() + g_watchdog_ms;
+    while (!all_done(true) && now_ms() < dl) usleep(200);
+}
 static bool quiescent() {
     if (g_cleaned) return true;
-    for (size_t k = 0; k < g_ntasks; ++k) {
-        bool can = false; if (g_cancelled) for (int x : *g_cancelled) if ((size_t)x == k) can = true;
-        if (!can && g_tasks[k].e.load() == 0) return false;
-    }
+    if (!all_done(false)) return false;
     int live = g_created.load() - g_ended.load();
     return g_in_wait.load() == live;
+}
+
+// "x<prio>:<cb>:<dur>" nested execute | "s<k>" / "c<k>" status / cancel of an earlier loop-submitted task |
+// "S" / "C" status / cancel of the most recent nested child of this script; "-" = empty; at most 6 actions
+static bool parse_script(const std::string &w, std::vector<TaskRec::Act> &out, size_t ntasks) {
+    out.clear();
+    if (w == "-") return true;
+    std::stringstream ss(w); std::string item;
+    while (std::getline(ss, item, ',')) {
+        TaskRec::Act a{0, 0, false, 0, 0};
+        if (item == "S" || item == "C") { a.kind = item[0]; }
+        else if (item.size() >= 2 && (item[0] == 's' || item[0] == 'c')) {
+            uint64_t k; if (!vh::to_u64(item.substr(1), k) || k >= ntasks) { out.clear(); return false; }
+            a.kind = item[0]; a.k = k;
+        } else if (item.size() >= 6 && item[0] == 'x') {
+            size_t p1 = item.find(':'), p2 = item.rfind(':');
+            int64_t pr; uint64_t d;
+            if (p1 == std::string::npos || p2 == p1 || !vh::to_i64(item.substr(1, p1 - 1), pr) || pr < -100 || pr > 100) { out.clear(); return false; }
+            std::string cbs = item.substr(p1 + 1, p2 - p1 - 1);
+            if ((cbs != "0" && cbs != "1") || !vh::to_u64(item.substr(p2 + 1), d) || d > 20000) { out.clear(); return false; }
+            a.kind = 'x'; a.prio = (int)pr; a.cb = (cbs == "1"); a.dur = (unsigned)d;
+        } else { out.clear(); return false; }
+        out.push_back(a);
+        if (out.size() > 6) { out.clear(); return false; }
+    }
+    return !out.empty();
 }
 
 int main() {
@@ -219,16 +331,23 @@ int main() {
     vh::LoopDriver drv(g_loop);
 
     int64_t fin_deadline = 0;                     // != 0: `fin` is waiting for callbacks
-    std::vector<int> cancelled;                   // cancel answered 0
     bool fin_done = false;
     bool at_eof = false; int off_n = 0; unsigned off_dur = 0;
-    g_cancelled = &cancelled;
 
     auto print_events = [&] {
         int nw = g_created.load();
         for (int i = 1; i <= nw && i < kMaxW; ++i)
             std::cout << "W " << i << " " << g_w[i].s.load() << " " << g_w[i].e.load() << "\n";
-        for (size_t k = 0; k < g_ntasks; ++k) {
+        {
+            std::lock_guard<std::mutex> lg(g_nev_mu);
+            for (const auto &e : g_nev) {
+                if (e.kind == 'x') std::cout << "N exec " << e.k << " " << e.parent << " " << e.thr << " " << e.prio << " " << (e.cb ? 1 : 0) << " " << e.qb << " " << e.qa << "\n";
+                else if (e.kind == 'z') std::cout << "N execnull " << e.parent << " " << e.thr << " " << e.qb << " " << e.qa << "\n";
+                else if (e.kind == 's') std::cout << "N stat " << e.k << " " << "wen"[e.r] << " " << e.thr << " " << e.qb << " " << e.qa << "\n";
+                else std::cout << "N cancel " << e.k << " " << e.r << " " << e.thr << " " << e.qb << " " << e.qa << "\n";
+            }
+        }
+        for_each_task([&](size_t k) {
             TaskRec &t = g_tasks[k];
             if (t.nbody.load() > 0)
                 std::cout << "E body " << k << " " << t.thr.load() << " " << t.s.load() << " " << t.e.load() << "\n";
@@ -236,15 +355,16 @@ int main() {
                 std::cout << "E extra " << k << " " << t.extra.load() << "\n";
             if (t.ncb.load() > 0)
                 std::cout << "E cb " << k << " " << t.cbthr.load() << " " << t.cbq.load() << "\n";
-        }
+        });
     };
     auto expected_cbs_arrived = [&]() -> bool {
-        for (size_t k = 0; k < g_ntasks; ++k) {
+        bool ok = true;
+        for_each_task([&](size_t k) {
             TaskRec &t = g_tasks[k];
-            if (t.cb && t.nbody.load() > 0 && t.e.load() != 0 && t.ncb.load() == 0) return false;
-            if (t.nbody.load() > 0 && t.e.load() == 0) return false;   // body still running
-        }
-        return true;
+            if (t.cb && t.nbody.load() > 0 && t.e.load() != 0 && t.ncb.load() == 0) ok = false;
+            if (t.nbody.load() > 0 && t.e.load() == 0) ok = false;   // body still running
+        });
+        return ok;
     };
 
     drv.step = [&]() -> bool {
@@ -262,7 +382,7 @@ int main() {
         if (!std::getline(std::cin, line)) { reset_case(); at_eof = true; return false; }
         auto w = vh::words(line);
         if (w.empty()) return true;
-        if (w[0] == "case") { reset_case(); cancelled.clear(); fin_done = false; std::cout << line << "\n"; return true; }
+        if (w[0] == "case") { reset_case(); fin_done = false; std::cout << line << "\n"; return true; }
         uint64_t a = 0, b = 0, c = 0, d = 0; int64_t pr = 0;
         const std::string &op = w[0];
         if (op == "cfg" && w.size() == 6 && (w[1] == "pool" || w[1] == "wt") && vh::to_u64(w[2], a) && vh::to_u64(w[3], b)
@@ -275,39 +395,31 @@ int main() {
             else { g_wt = new WorkThread(g_loop); ok = true; }
             g_inited = ok;
             std::cout << "P init " << (ok ? 1 : 0) << "\n";
-        } else if (op == "exec" && w.size() == 4 && vh::to_i64(w[1], pr) && pr >= -100 && pr <= 100 && (w[2] == "0" || w[2] == "1")
-                   && vh::to_u64(w[3], c) && c <= 20000 && (g_tp || g_wt) && g_ntasks < kMaxTasks) {
+        } else if ((op == "exec" || op == "execs") && (w.size() == 4 || (op == "execs" && w.size() == 6)) && w.size() == (op == "exec" ? 4u : 6u)
+                   && vh::to_i64(w[1], pr) && pr >= -100 && pr <= 100 && (w[2] == "0" || w[2] == "1")
+                   && vh::to_u64(w[3], c) && c <= 20000 && (g_tp || g_wt) && g_ntasks < kNestBase && !fin_done
+                   && (op == "exec" || (parse_script(w[4], g_tasks[g_ntasks].bscript, g_ntasks) && parse_script(w[5], g_tasks[g_ntasks].cscript, g_ntasks)
+                                        && (w[2] == "1" || g_tasks[g_ntasks].cscript.empty())))) {
             size_t k = g_ntasks;
             TaskRec &t = g_tasks[k];
             t.prio = (int)pr; t.cb = (w[2] == "1"); t.dur_us = (unsigned)c;
-            auto body = [k] {
-                TaskRec &t = g_tasks[k];
-                if (t.nbody.fetch_add(1) > 0) { t.extra.fetch_add(1); return; }
-                t.thr = thr_index();
-                t.s = seq();
-                if (t.dur_us) usleep(t.dur_us);
-                t.e = seq();
-            };
-            auto cbf = [k] {
-                TaskRec &t = g_tasks[k];
-                if (t.ncb.fetch_add(1) > 0) { t.extra.fetch_add(1); return; }
-                t.cbthr = thr_index();
-                t.cbq = seq();
-            };
+            if (op == "exec") { t.bscript.clear(); t.cscript.clear(); }
+            auto body = [k] { task_body(k); };
+            auto cbf = [k] { task_cb(k); };
             // worker-level observation for the spawn rule: is the pool quiescent (every live worker blocked in
             // the wait), what does snapshot() say just before, how many threads does execute() create
             bool quiet = quiescent();
             size_t thr0 = 0, idle0 = 0, undo0 = 0;
             if (g_tp) { auto ss = g_tp->snapshot(); thr0 = ss.thread_num; idle0 = ss.idle_thread_num;
                         for (size_t i = 0; i < THREAD_POOL_PRIO_SIZE; ++i) undo0 += ss.undo_task_num[i]; }
-            int created0 = g_created.load();
+            int created0 = tl_made;
             uint64_t qb = seq();
             cabinet::Token tok;
             if (g_tp) tok = t.cb ? g_tp->execute(body, cbf, (int)pr) : g_tp->execute(body, (int)pr);
             else tok = t.cb ? g_wt->execute(body, cbf) : g_wt->execute(body);
             uint64_t qa = seq();
-            int spawned = g_created.load() - created0;
-            if (tok.isNull()) { std::cout << "P exec null " << qb << " " << qa << "\n"; }
+            int spawned = tl_made - created0;
+            if (tok.isNull()) { t.bscript.clear(); t.cscript.clear(); std::cout << "P exec null " << qb << " " << qa << "\n"; }
             else { t.token = tok; ++g_ntasks; std::cout << "P exec " << k << " " << qb << " " << qa << "\n"; }
             std::cout << "M spawn " << spawned << " " << (quiet ? 1 : 0) << " " << thr0 << " " << idle0 << " " << undo0 << "\n";
         } else if (op == "stat" && w.size() == 2 && vh::to_u64(w[1], a) && a < g_ntasks && (g_tp || g_wt)) {
@@ -319,7 +431,7 @@ int main() {
             uint64_t qb = seq();
             int r = g_tp ? g_tp->cancel(g_tasks[a].token) : g_wt->cancel(g_tasks[a].token);
             uint64_t qa = seq();
-            if (r == 0) cancelled.push_back((int)a);
+            if (r == 0) g_tasks[a].cancelled = true;
             std::cout << "P cancel " << a << " " << r << " " << qb << " " << qa << "\n";
         } else if (op == "snap" && w.size() == 1 && g_tp) {
             uint64_t qb = seq();
@@ -342,7 +454,7 @@ int main() {
             } while (std::chrono::steady_clock::now() < t_end);
             std::cout << "P hammer\n";
         } else if (op == "offloop" && w.size() == 3 && vh::to_u64(w[1], a) && a >= 1 && a <= 64 && vh::to_u64(w[2], b) && b <= 20000
-                   && (g_tp || g_wt) && g_ntasks + a < kMaxTasks) {
+                   && (g_tp || g_wt) && g_ntasks + a < kNestBase && !fin_done) {
             // leave runLoop(); the main thread then submits `a` tasks WITH completion callbacks while the loop is not
             // running, waits for their bodies, and runs the loop again (see main)
             off_n = (int)a; off_dur = (unsigned)b;
@@ -355,11 +467,7 @@ int main() {
             int64_t dl = now_ms() + g_watchdog_ms;
             bool ok = false;
             while (!g_cleaned) {
-                ok = true;
-                for (size_t k = 0; k < g_ntasks && ok; ++k) {
-                    bool can = false; for (int x : cancelled) if ((size_t)x == k) can = true;
-                    if (!can && g_tasks[k].e.load() == 0) ok = false;
-                }
+                ok = all_done(false);
                 if (ok || now_ms() > dl) break;
                 usleep(200);
             }
@@ -386,8 +494,10 @@ int main() {
             std::cout << "P cleanup ok " << qb << " " << qa << " " << live << "\n";
         } else if (op == "fin" && w.size() == 1 && !fin_done) {
             fin_done = true;
+            wait_scripts_done();                   // bodies that call the API finish first (their records are printed below)
             fin_deadline = now_ms() + 2000;
         } else {
+            if (g_ntasks < kMaxTasks) { g_tasks[g_ntasks].bscript.clear(); g_tasks[g_ntasks].cscript.clear(); }
             std::cout << "bad-op\n";
         }
         return true;
@@ -401,27 +511,17 @@ int main() {
             size_t k = g_ntasks;
             TaskRec &t = g_tasks[k];
             t.prio = 0; t.cb = true; t.dur_us = off_dur;
-            auto body = [k] {
-                TaskRec &t = g_tasks[k];
-                if (t.nbody.fetch_add(1) > 0) { t.extra.fetch_add(1); return; }
-                t.thr = thr_index(); t.s = seq();
-                if (t.dur_us) usleep(t.dur_us);
-                t.e = seq();
-            };
-            auto cbf = [k] {
-                TaskRec &t = g_tasks[k];
-                if (t.ncb.fetch_add(1) > 0) { t.extra.fetch_add(1); return; }
-                t.cbthr = thr_index(); t.cbq = seq();
-            };
+            auto body = [k] { task_body(k); };
+            auto cbf = [k] { task_cb(k); };
             bool quiet = quiescent();
             size_t thr0 = 0, idle0 = 0, undo0 = 0;
             if (g_tp) { auto ss = g_tp->snapshot(); thr0 = ss.thread_num; idle0 = ss.idle_thread_num;
                         for (size_t j = 0; j < THREAD_POOL_PRIO_SIZE; ++j) undo0 += ss.undo_task_num[j]; }
-            int created0 = g_created.load();
+            int created0 = tl_made;
             uint64_t qb = seq();
             cabinet::Token tok = g_tp ? g_tp->execute(body, cbf, 0) : g_wt->execute(body, cbf);
             uint64_t qa = seq();
-            int spawned = g_created.load() - created0;
+            int spawned = tl_made - created0;
             if (tok.isNull()) std::cout << "P exec null " << qb << " " << qa << "\n";
             else { t.token = tok; ++g_ntasks; std::cout << "P exec " << k << " " << qb << " " << qa << "\n"; }
             std::cout << "M spawn " << spawned << " " << (quiet ? 1 : 0) << " " << thr0 << " " << idle0 << " " << undo0 << "\n";
